@@ -394,6 +394,64 @@ pub(crate) mod u6 {
         (still, payload)
     }
 
+    /// Aliased-queue scenario (one thread): `c2` is a second channel object sharing the queue of
+    /// `c` (what ChannelRead / deep_copy of a channel value creates).  c2 has been scanned
+    /// (black); c and the value e are white and reachable only through a grey, unscanned array.
+    /// The program pops both and writes e through c: the barrier looks at the colour of the
+    /// channel OBJECT written through (c, white) and does nothing, but the queue is also reachable
+    /// from the black c2.  Returns (e still in heap_list, payload read back through c2).
+    pub fn scenario_channel_alias_write_during_mark(t: &mut VmGreenThread) -> (bool, Option<AbraInt>) {
+        t.pc = ProgramCounter(5);
+        // let c = channel(); let d = channel(); d.write(c); let c2 = d.read()
+        t.arm_ConstructChannel(); // [c]
+        let c_v = t.top();
+        t.arm_ConstructChannel(); // [c, d]
+        t.arm_Duplicate(); // [c, d, d]
+        t.push(c_v); // [c, d, d, c]
+        t.arm_ChannelWrite(); // [c, d]      d's queue: [c]
+        t.arm_ChannelRead(); // [c, c2]      c2 = copy of c: same queue
+        let c2_v = t.top();
+        let shares = unsafe {
+            Arc::ptr_eq(&(&*(c_v.0 as *const ChannelObject)).data, &(&*(c2_v.0 as *const ChannelObject)).data)
+        };
+        // let arr = [Some(41), c]   -- then keep only arr and c2 on the stack: [arr, c2]
+        t.value_stack.clear();
+        t.push(41 as AbraInt);
+        t.construct_variant(1);
+        t.push(c_v);
+        t.construct_array(2);
+        t.push(c2_v);
+        t.stack_base = 0;
+        // a cycle starts; grey stack = [arr, c2]; the first increment scans exactly c2
+        t.start_mark_phase();
+        let mut b = 1;
+        t.process_gray(&mut b);
+        let c2_black = marked(t, c2_v.0 as *mut ObjectHeader) && !on_gray(t, c2_v.0 as *mut ObjectHeader);
+        // let c = arr.pop(); let e = arr.pop(); c.write(e)
+        t.arm_ArrayPop(0x8000, 0); // [arr, c2, c]
+        t.arm_ArrayPop(0x8000, 0); // [arr, c2, c, e]
+        let e_ptr = t.top().0 as *mut ObjectHeader;
+        t.arm_ChannelWrite(); // [arr, c2]   shared queue: [e]
+        let mut k = 0;
+        while k < 3 {
+            if t.gc_state == GcState::Marking {
+                b = usize::MAX;
+                t.process_gray(&mut b);
+            }
+            k += 1;
+        }
+        t.sweep(usize::MAX);
+        t.sweep(usize::MAX);
+        let still = shares && c2_black && pos(t, e_ptr) < t.heap_list.len();
+        let payload = if still {
+            t.arm_ChannelRead(); // c2.read()
+            Some(t.top().get_variant(t).val.get_int(t))
+        } else {
+            None
+        };
+        (still, payload)
+    }
+
     #[cfg(test)]
     mod native {
         use super::*;
@@ -406,6 +464,16 @@ pub(crate) mod u6 {
                      still, payload, t.value_stack.len(), t.heap_list.len(), t.gc_state);
             std::mem::forget(t);
             assert!(still, "object referenced only from a channel queue was deallocated by sweep");
+        }
+        /// native replay of C06.gc.ChannelWrite.preserves_inv.chanalias
+        #[test]
+        fn chan_alias_write_during_mark_native() {
+            let mut t = mk_thread(vec![]);
+            let (still, payload) = scenario_channel_alias_write_during_mark(&mut t);
+            println!("U6-NATIVE-ALIAS still_in_heap_list={} payload={:?} stack_len={} heap_len={} state={:?}",
+                     still, payload, t.value_stack.len(), t.heap_list.len(), t.gc_state);
+            std::mem::forget(t);
+            assert!(still, "object referenced only from a shared channel queue was deallocated by sweep");
         }
         /// native replay of C06.gc.scenario.pop_during_mark on the real collector
         #[test]
